@@ -38,6 +38,8 @@ def gen_target(tp: Tape, shape, chunks_hint, allow_new=True, allow_region=True):
     if rk in ("aligned", "misaligned", "wrongshape"):
         t["before"] = [tp.randint(0, 2) for _ in range(ndim)]  # in target chunks
         t["after"] = [tp.randint(0, 2) for _ in range(ndim)]
+        # a few extra elements after the region: the region's stop may then fall inside the last chunk
+        t["tail"] = [tp.choice([0, 0, 0, 1, 2, 3]) for _ in range(ndim)]
         if rk == "misaligned":
             t["shift"] = [tp.randint(0, 2) for _ in range(ndim)]
             if not any(t["shift"]):
@@ -135,7 +137,8 @@ def materialise_target(t, src_arr, src_np, sim, k):
             start = [b + sft for b, sft in zip(before, t["shift"])]
         if rk == "wrongshape":
             rshape = [max(1, s + d) for s, d in zip(shape, t["delta"])]
-        tshape = tuple(st_ + rs + a for st_, rs, a in zip(start, rshape, after))
+        tail = t.get("tail") or [0] * len(shape)
+        tshape = tuple(st_ + rs + a + tl for st_, rs, a, tl in zip(start, rshape, after, tail))
         region = tuple(slice(st_, st_ + rs) for st_, rs in zip(start, rshape))
     chunks = tuple(max(1, min(c, s)) for c, s in zip(chunks, tshape))
     kw = {}
